@@ -649,9 +649,9 @@ package values
 //@ props C01 C18
 //@ panics nothing
 //@ assigns nothing
-//@ ensures def: result == (e == k && (e == nil || tcomparable(typeof(e))))
+//@ ensures def: result == (e == k && (e == nil || vcomparable(e)))
 
-//@ define iskey(e Val, k Val) Bool = e == k && (e == nil || tcomparable(typeof(e)))
+//@ define iskey(e Val, k Val) Bool = e == k && (e == nil || vcomparable(e))
 //@ func (values.mapSliceValue).Contains
 //@ props C01 C18
 //@ panics nothing
